@@ -191,6 +191,11 @@ pub uninterp spec fn fi_rest(it: &FrameIter) -> Seq<Frame>;
 impl FrameIter {
     #[verifier::external_body]
     pub fn into_iter(self) -> (r: FrameIter) ensures fi_rest(&r) == fi_rest(&self) { unimplemented!() }
+    // Iterator::take (ASSUMED of std): at most the first n of what is left
+    #[verifier::external_body]
+    pub fn take(self, n: usize) -> (r: FrameIter)
+        ensures fi_rest(&r) == (if n as int <= fi_rest(&self).len() { fi_rest(&self).take(n as int) } else { fi_rest(&self) })
+    { unimplemented!() }
     #[verifier::external_body]
     pub fn next(&mut self) -> (r: Option<Frame>)
         ensures match r {
